@@ -878,6 +878,43 @@ def gen_make_constraint(cons: ast.AST) -> str:
             ", ".join(f"({json.dumps(k)}, {json.dumps(v)})" for k, v in rows) + "]\n")
 
 
+
+def gen_lp_glue(lp: ast.AST) -> str:
+    """`solve_lp`: the statements that assemble the arguments of `linprog` from the (cached) LPData and the ones
+    that turn `result.fun` into the reported objective value — unparsed statement by statement.  The model
+    `Py.LPP.lpArgs` / `lpPost` is a reading of exactly this text (`Props.C08.lpGlue_agrees`)."""
+    fn = find_func(lp, "solve_lp")
+    texts = [(_u(st), st) for st in fn.body]
+    idx = {t: i for i, (t, _) in enumerate(texts)}
+    if "c = lp_data.c" not in idx:
+        raise TranslateError("solve_lp: `c = lp_data.c` not found")
+    a = idx["c = lp_data.c"]
+    b = next((i for i, (t, _) in enumerate(texts) if t == "linprog_kwargs.update(kwargs)"), None)
+    if b is None or b < a:
+        raise TranslateError("solve_lp: `linprog_kwargs.update(kwargs)` not found after `c = lp_data.c`")
+    args = [" ".join(t.split()) for t, _ in texts[a:b + 1]]
+    calls = [n for n in ast.walk(fn) if isinstance(n, ast.Call) and _u(n.func) == "linprog"]
+    if len(calls) != 1 or _u(calls[0]) != "linprog(**linprog_kwargs)":
+        raise TranslateError(f"solve_lp: linprog call sites {[_u(c) for c in calls]}")
+    # nothing between extraction and the call may touch lp_data.c / the cost vector except the block above
+    for t, st in texts[:a]:
+        for n in ast.walk(st):
+            if isinstance(n, ast.Attribute) and _u(n) == "lp_data.c" :
+                raise TranslateError(f"solve_lp: lp_data.c is used before the argument block: {t[:70]!r}")
+    post = [st for t, st in texts if isinstance(st, ast.If) and t.startswith("if result.fun is not None")]
+    if len(post) != 1:
+        raise TranslateError("solve_lp: `if result.fun is not None` block")
+    obj = [" ".join(_u(x).split()) for x in post[0].body]
+    vals = [st for t, st in texts if isinstance(st, ast.If) and t.startswith("if result.x is not None")]
+    if len(vals) != 1:
+        raise TranslateError("solve_lp: `if result.x is not None` block")
+    val = [" ".join(_u(x).split()) for x in vals[0].body]
+    ls = lambda xs: "[" + ", ".join(json.dumps(x) for x in xs) + "]"
+    return (f"def lpGlueArgs : List String := {ls(args)}\n"
+            f"def lpGlueObjective : List String := {ls(obj)}\n"
+            f"def lpGlueValues : List String := {ls(val)}\n")
+
+
 HEADER = """/-
   GENERATED by harness/gen_tables.py from the optyx sources — do not edit.
   Regenerated before every build; the theorems that mention these definitions are
@@ -918,7 +955,8 @@ def main(repo: str, outdir: str, dry: bool = False) -> int:
 
     def f_glue():
         return (HEADER + "namespace Optyx.Generated\n\n" + gen_solver_glue(src("solvers/scipy_solver.py"))
-                + gen_make_constraint(src("constraints.py")) + "\nend Optyx.Generated\n")
+                + gen_make_constraint(src("constraints.py")) + gen_lp_glue(src("solvers/lp_solver.py"))
+                + "\nend Optyx.Generated\n")
 
     changed, errors, h = False, {}, hashlib.sha256()
     for fname, make in (("GradRules", f_rules), ("Tables", f_tables), ("Closures", f_closures), ("SolverGlue", f_glue),
